@@ -12,10 +12,10 @@ open RV
 variable {K : Type} [Field K] [LinearOrder K] [IsStrictOrderedRing K]
 
 /-- status left by the step and the heartbeat of a boundary (rebound.c:857-861, 741-775,
-    collision.c:761): last write wins, i.e. SIGINT > ENCOUNTER > ESCAPE > USER > COLLISION -/
+    collision.c:761): last write wins, i.e. SIGINT > ENCOUNTER > ESCAPE > USER > COLLISION > error raised inside the step -/
 def Flags.stepCode (f : Flags) : Option Int :=
   if f.sigint then some 6 else if f.encounter then some 3 else if f.escape then some 4
-  else if f.user then some 5 else if f.collision then some 7 else none
+  else if f.user then some 5 else if f.collision then some 7 else if f.stepError then some 1 else none
 
 /-- status forced by `reb_check_exit` itself (rebound.c:674-676, 718-728):
     NO_PARTICLES > GENERIC_ERROR -/
@@ -27,22 +27,22 @@ theorem stepCode_pos (f : Flags) (x : Int) (h : f.stepCode = some x) : 1 ≤ x :
   split_ifs at h <;> simp at h <;> omega
 
 theorem stepCode_none_of_clear (f : Flags) (h : f.Clear) : f.stepCode = none := by
-  obtain ⟨h1, h2, h3, h4, h5, h6, h7⟩ := h
-  simp [Flags.stepCode, h1, h2, h3, h4, h5]
+  obtain ⟨⟨h1, h2, h3, h4, h5, h6, h7⟩, h8⟩ := h
+  simp [Flags.stepCode, h1, h2, h3, h4, h5, h8]
 
 theorem stepAndBeat_status (step : StepFn K) (k : Nat) (s : Sim K) (f : Flags) :
     (stepAndBeat step k s f).status = f.stepCode.getD s.status := by
   unfold stepAndBeat runHeartbeat Flags.stepCode
-  rcases f with ⟨c, u, e, n, sg, em, nn⟩
-  cases c <;> cases u <;> cases e <;> cases n <;> cases sg <;> simp [Status.code]
+  rcases f with ⟨c, u, e, n, sg, em, nn, se⟩
+  cases c <;> cases u <;> cases e <;> cases n <;> cases sg <;> cases se <;> simp [Status.code]
 
 theorem stepAndBeat_fields (step : StepFn K) (k : Nat) (s : Sim K) (f : Flags) :
     (stepAndBeat step k s f).stepsDone = s.stepsDone + 1 ∧
     (stepAndBeat step k s f).nOdes = s.nOdes ∧ (stepAndBeat step k s f).isBS = s.isBS ∧
     (stepAndBeat step k s f).t = (step k s.t s.dt s.dtLastDone).t := by
   unfold stepAndBeat runHeartbeat
-  rcases f with ⟨c, u, e, n, sg, em, nn⟩
-  cases c <;> cases u <;> cases e <;> cases n <;> cases sg <;> simp
+  rcases f with ⟨c, u, e, n, sg, em, nn, se⟩
+  cases c <;> cases u <;> cases e <;> cases n <;> cases sg <;> cases se <;> simp
 
 theorem exitTime_fields (s : Sim K) (tmax lf sg : K) (inf : Bool) :
     (exitTime s tmax inf lf sg).1.stepsDone = s.stepsDone ∧ (exitTime s tmax inf lf sg).1.t = s.t ∧
@@ -87,7 +87,7 @@ theorem checkExit_form (s : Sim K) (tmax lf : K) (inf : Bool) (f : Flags)
   have h10 : ¬ s.status ≤ -10 := by omega
   have h3 : ¬ s.status = -3 := by omega
   have h4 : ¬ s.status = -4 := by omega
-  unfold checkExit exitCountdown
+  unfold checkExit checkExitCore exitCountdown
   simp only [Status.code, h10, h3, h4, if_false, false_or, false_and]
   cases f.errMsg <;> simp
 
@@ -254,14 +254,14 @@ theorem exitCode_some (f : Flags) (nOdes : Nat) (isBS : Bool) (c : Int)
     rw [h]; exact ⟨by simp, stepCode_pos f c h⟩
 
 /-- the first heartbeat (before any step) only evaluates user / escape / encounter -/
-def Flags.first (f : Flags) : Flags := { f with collision := false, sigint := false }
+def Flags.first (f : Flags) : Flags := { f with collision := false, sigint := false, stepError := false }
 
 theorem start_status (s : Sim K) (tmax : K) (f0 : Flags) (hst : s.status ≠ -3 ∧ s.status ≠ -4) :
     (start s tmax f0).1.status = f0.first.stepCode.getD (-1) ∧
     (start s tmax f0).1.stepsDone = s.stepsDone ∧ (start s tmax f0).1.nOdes = s.nOdes ∧
     (start s tmax f0).1.isBS = s.isBS ∧ (start s tmax f0).1.t = s.t := by
   unfold start runHeartbeat Flags.first Flags.stepCode
-  rcases f0 with ⟨c, u, e, n, sg, em, nn⟩
+  rcases f0 with ⟨c, u, e, n, sg, em, nn, se⟩
   simp only [Status.code, hst.1, hst.2, ne_eq, not_false_eq_true, and_self, if_true]
   cases u <;> cases e <;> cases n <;> simp <;> split_ifs <;> simp
 
